@@ -21,16 +21,17 @@ Definition gm_ndel := @ndel.
 Definition gm_nempty := @nempty.
 (* the hypotheses of the theorems, checked at every collection point of every generated case *)
 Definition gm_hyp (s : state) (rk : word -> nat) : bool * bool * bool * bool :=
+  let bound := nraw (st_heap s) (st_reg s) in
   (wf_b (st_heap s) (st_reg s) (st_tls s),
    rawdec_b (st_heap s) (st_reg s) rk &&
-     forallb (fun p => Nat.leb (rk p) (nraw (st_heap s) (st_reg s))) (nkeys (st_heap s)),
+     forallb (fun p => Nat.leb (rk p) bound) (nkeys (st_heap s)),
    range_b (st_reg s) (st_minptr s) (st_maxptr s),
    order_b (st_reg s) (st_order s)).
 (* specification side: a state over the heap in which nothing was ever collected; by mark_exact the
    marks of `mark true true` on it are exactly registered /\ (root-flagged \/ reachable) *)
 Definition gm_full_state (hp : heap) (rg : registry) (order : list word) (tls : list contents)
     (stack : list word) : state :=
-  {| st_heap := hp; st_reg := rg; st_order := order; st_mitems := 0;
+  {| st_heap := hp; st_reg := rg; st_order := order; st_nitems := 0%N; st_mitems := 0%N;
      st_minptr := fold_right N.min 18446744073709551615%N order;
      st_maxptr := fold_right N.max 0%N order;
      st_tls := tls; st_stack := stack |}.
